@@ -288,13 +288,18 @@ def parseAndPrintPELFile"""),
     ('C18', 'src-parse-ignores-plugins-off', P + 'src.py', """        if config.allow_plugins:
             value = self.parse(hexwords)""", """        if True:
             value = self.parse(hexwords)"""),
-    ('C18', 'ud-parser-cached-by-creator-only', P + 'parse_user_data.py', """            if userDataParserMod in userDataParsers:
-                cls = userDataParsers[userDataParserMod]""", """            if self.creatorID in userDataParsers:
-                cls = userDataParsers[self.creatorID]"""),
+    ('C18', 'ud-parser-cached-by-creator-only', P + 'parse_user_data.py', ["""            if userDataParserMod in userDataParsers:
+                cls = userDataParsers[userDataParserMod]""", """                userDataParsers[userDataParserMod] = cls"""], ["""            if self.creatorID in userDataParsers:
+                cls = userDataParsers[self.creatorID]""", """                userDataParsers[self.creatorID] = cls"""]),
     ('C18', 'src-none-crashes-again', P + 'src.py', "if value and value != 'null':", "if value != '' and value != 'null':"),
     # ---- C19
-    ('C19', 'hexdata-class-attribute', P + 'src.py', """        self.hexData = []
-        self.srcType = 0""", """        self.srcType = 0"""),
+    ('C19', 'hexdata-class-attribute', P + 'src.py', ["""        self.hexData = []
+        self.srcType = 0""", """    - An optional subsection for Callouts
+    \"\"\"
+"""], ["""        self.srcType = 0""", """    - An optional subsection for Callouts
+    \"\"\"
+    hexData = []
+"""]),
     ('C19', 'target-lps-accumulate', P + 'imp_partition.py', """        self.targetLPs = []
 
     def toJSON""", """
@@ -318,7 +323,20 @@ def parseAndPrintPELFile"""),
                     # No print for informational purposes, this is encountered often, e.g. PHYP
                     cls = None
                 userDataParsers[self.compID] = cls"""),
-    ('C19', 'registry-message-mutated', P + 'registry.py', "            output['Message'] = pel['Documentation']['Message']\n", "            output['Message'] = pel['Documentation']['Message']\n            pel['Documentation']['Message'] = pel['Documentation']['Message'].replace('%1', '%2', 1) if len(self.pels) and pel['Documentation'].get('MessageArgSources') and len(pel['Documentation']['MessageArgSources']) > 1 else pel['Documentation']['Message']\n"),
+    ('C19', 'registry-lookup-cached-by-code-only', P + 'registry.py', ["""        output = {}
+
+        for pel in self.pels:""", """                output['Words6To9'] = pel['SRC']['Words6To9']
+
+            return output"""], ["""        output = {}
+        if not hasattr(self, '_cache'):
+            self._cache = {}
+        if code in self._cache:
+            return self._cache[code]
+
+        for pel in self.pels:""", """                output['Words6To9'] = pel['SRC']['Words6To9']
+
+            self._cache[code] = output
+            return output"""]),
     ('C19', 'callout-failure-disables-module', P + 'src.py', """        except Exception:
             pass
 
